@@ -130,7 +130,26 @@ def c18(tier, seed):
     return check('C18', tier, seed, runs, keyfilter=pref('c18:', 'harness:'), post=audit, extra_cov=cov, assumptions=ASSUME_COMMON + [
         'link audit: the undefined symbols of the merged library object (plain build) must be a subset of {malloc, free, time, mem*/str* helpers, bsearch, assert/stack-protector helpers}; malloc/free/time are redirected to counting wrappers'])
 
-CHECKS = {'C10': c10, 'C12': c12, 'C13': c13, 'C15': c15, 'C18': c18, 'C01': c01, 'C02': c02, 'C03': c03, 'C04': c04, 'C05': c05, 'C06': c06, 'C07': c07, 'C08': c08, 'C11': c11, 'C17': c17}
+def c09(tier, seed):
+    runs = [Run('e2_detect', 'asan', [])]
+    def cov(results):
+        res = results[0][1]
+        return {k: res.get(k) for k in ('decision_rows_hit', 'decision_rows_feasible', 'recognition_classes', 'bases', 'strings')}
+    def rows(results):
+        res = results[0][1]
+        if res.get('decision_rows_hit') is not None and res.get('decision_rows_hit') < res.get('decision_rows_feasible', 0) and not any(p['timed_out'] for p in res['parts']):
+            return [{'key': 'harness:decision-table-coverage', 'replay': '', 'msg': 'only %s of %s feasible rows of the error-condition table were exercised' % (res.get('decision_rows_hit'), res.get('decision_rows_feasible'))}]
+        return []
+    return check('C09', tier, seed, runs, keyfilter=pref('c09:', 'harness:'), extra_cov=cov, post=rows, assumptions=ASSUME_COMMON + [
+        'strings are explored by bounded deviation (<= 2 deviations) from 28 base phrases with a menu of one token per cross-language recognition class (68 classes in the pinned lists) plus unknown/empty tokens and separator changes; inputs longer than sizeof(polyseed_str)-1 after normalisation are judged on the cut string'])
+
+def c14(tier, seed):
+    runs = [Run('e2_strings', 'asan', []), Run('e2_strings', 'dbg', []), Run('e2_storage', 'asan', ['--tier', 'quick'], label='e2_storage[asan] load enumeration')]
+    return check('C14', tier, seed, runs, keyfilter=pref('c14:', 'c06:leak', 'c06:accept'), assumptions=ASSUME_COMMON + [
+        'small scope: all strings up to length 5 (thorough 6) over 9 byte classes, bare and after valid 14/15/16-token prefixes of every language, boundary-length families around the buffer size; other byte values are represented by their class only',
+        'run in ASan+UBSan builds with and without assertions; each string sits in an exactly sized heap block'])
+
+CHECKS = {'C09': c09, 'C14': c14, 'C10': c10, 'C12': c12, 'C13': c13, 'C15': c15, 'C18': c18, 'C01': c01, 'C02': c02, 'C03': c03, 'C04': c04, 'C05': c05, 'C06': c06, 'C07': c07, 'C08': c08, 'C11': c11, 'C17': c17}
 
 def setup():
     for m in ('plain', 'asan'):
@@ -142,11 +161,11 @@ def setup():
 
 SETUP_PROGS = [('e2_phrase', ['asan']), ('e2_gf', ['plain', 'asan']), ('e2_kdf', ['plain', 'asan']), ('e2_coin', ['asan']),
                ('e2_storage', ['asan']), ('e2_words', ['asan']), ('e2_prefix', ['asan']), ('e2_birthday', ['asan']), ('e2_maxlen', ['asan']),
-               ('e1_bfs', ['asan']), ('e2_crypt', ['asan']), ('e2_tape', ['asan']), ('e2_fault', ['asan'])]
+               ('e1_bfs', ['asan']), ('e2_crypt', ['asan']), ('e2_tape', ['asan']), ('e2_fault', ['asan']), ('e2_detect', ['asan']), ('e2_strings', ['asan', 'dbg'])]
 ENGINES = [
  {'name': 'E1', 'path': 'harness/e1_bfs.c', 'serves_properties': ['C10', 'C12', 'C13', 'C15', 'C18'],
   'kind_free_text': 'explicit-state breadth-first search over API histories on the real library to fixpoint; states rebuilt by replay, de-duplicated on library sections + live seed bytes + environment; every transition compared with the reference model, observation battery in every new state; allocation faults as a state component'},
- {'name': 'E2', 'path': 'harness/e2_*.c', 'serves_properties': ['C01', 'C02', 'C03', 'C04', 'C05', 'C06', 'C07', 'C08', 'C11', 'C17'],
+ {'name': 'E2', 'path': 'harness/e2_*.c', 'serves_properties': ['C01', 'C02', 'C03', 'C04', 'C05', 'C06', 'C07', 'C08', 'C09', 'C11', 'C12', 'C14', 'C15', 'C17', 'C18'],
   'kind_free_text': 'bounded exhaustive enumeration of finite input factors, every case executed on the real API (ASan+UBSan build) and compared with the reference model'},
 ]
 NA = {}
@@ -158,6 +177,12 @@ META = {
  'C03': dict(engine='E2', design_ref='DESIGN.md section 5 C03', technique='exhaustive enumeration of seed factors, byte comparison of every emitted phrase with an independent reference encoder',
    text='Same enumeration as C01 with a different oracle: every phrase emitted by polyseed_encode must be byte-identical to the phrase computed by the reference model (README bit layout, golden word lists, coin XOR, separator, NFC), the stored check value must equal the reference GF(2048) value, and re-encoding after unrelated operations must give the same bytes. A bit-linear packing is pinned by the single-bit seeds and their pairs, which are enumerated completely.',
    note='Trusted: ' + TB + '.'),
+ 'C09': dict(engine='E2', design_ref='DESIGN.md section 5 C09', technique='bounded-deviation exhaustive exploration of phrase strings (<=2 deviations from base phrases), differential auto vs 10 explicit decoders + reference decoder',
+   text='Every single deviation and pairs of deviations (token replaced by a representative of each of the 68 cross-language recognition classes, unknown, empty; separator doubled, ideographic, no-break; leading/trailing spaces, 17th token, 15 tokens) from 28 base phrases (each language valid/bad check word, phrases recognised by 6 / 2 lists) x coins x masks x failing allocation. For each string: auto = OK implies exactly one language recognises all tokens and equals its explicit result; MULT_LANG iff >= 2; LANG iff none; NUM_WORDS first; plus equality with the reference decoder and coverage of all 22 feasible rows of the simultaneous-error table.',
+   note='Trusted: ' + TB + '. Deviation bound 2 (thorough: all 120 position pairs).'),
+ 'C14': dict(engine='E2', design_ref='DESIGN.md section 5 C14', technique='small-scope exhaustive enumeration of byte strings under ASan/UBSan with status, input-immutability, ledger and termination oracles',
+   text='All strings up to length 5 (6) over 9 byte classes (ASCII, space, lead/continuation bytes of 2- and 3-byte UTF-8, invalid FF), alone and appended to valid 14/15/16-token phrases in each language, plus every length around the buffer size, sliding non-ASCII offsets, a 17th token across the cut, token-count x token-length grids; fed to decode, decode_explicit (4 languages) and crypt in sanitizer builds with and without assertions; buffers for load come from the C06 enumeration.',
+   note='Trusted: ' + TB + '. Other byte values only by class; lengths beyond 2*size+80 not tried.'),
  'C10': dict(engine='E1', design_ref='DESIGN.md section 5 C10', technique='explicit-state BFS over enable/create/reload/recode/crypt/free histories to fixpoint, all 32 feature values x 4 entry points in every state',
    text='Breadth-first search of the real library over sequences of enable_features (14 arguments incl. high bits), create (13 arguments), store/load, encode/decode, crypt and free until no new state appears; in every state all 32 five-bit feature values are presented to load, decode_explicit, decode and create and must be refused exactly when they contain a bit outside (mask | encrypted); enable returns popcount(arg & 7); feature queries return exactly the stored user bits.',
    note='Trusted: ' + TB + '. Sequences are exhaustive for the stated alphabet (fixpoint), seeds/languages/coins inside the battery are fixed representatives.'),
